@@ -67,9 +67,9 @@ def stalled_task_policy(rng, spec, nw):
 def scenarios(ck):
     rng = ck.rng
     yield X.sanity_scenario()
-    n_rich = ck.n(130, 3000)
-    n_map = ck.n(110, 2500)
-    n_fail = ck.n(40, 800)
+    n_rich = ck.n(130, 2200)
+    n_map = ck.n(110, 2000)
+    n_fail = ck.n(40, 600)
     for i in range(n_map):
         # consumers of mapped sequences: whole, elements, chunks, slices ending inside a block, reversed slices, slices of slices
         nt = rng.randint(4, 8)
